@@ -1,5 +1,6 @@
 import CpModel.SessionStore
 import CpProofs.C14Lemmas
+import CpModel.Gen.C14Tables
 /-!
   C14 — session ids are never adopted from clients; data persists until expiry.
 
@@ -1125,5 +1126,17 @@ example : NoOther [(1, Rec.bad .eof), (2, .good [] 3)] := by
   intro i hm
   simp only [List.mem_cons, List.not_mem_nil, or_false, Prod.mk.injEq] at hm
   rcases hm with ⟨_, h⟩ | ⟨_, h⟩ <;> cases h
+
+/-! ### the table regenerated from the live module agrees with the model -/
+
+/-- The except clause of `FileSession._load`, as measured on the live code on every run, is exactly the
+    one the model transcribes: EOFError and UnpicklingError (and a missing file) are "no session",
+    other classes propagate; ids are 20 random bytes written as 40 hex digits. -/
+theorem C14_except_clause_table :
+    (∀ e, CpModel.Gen.C14.loadCatches e = (loadData { store := [(0, .bad e)] } 0).isSome) ∧
+    CpModel.Gen.C14.missingFileIsNone = true ∧
+    CpModel.Gen.C14.idBytes = 20 ∧ CpModel.Gen.C14.idTextLen = 40 := by
+  refine ⟨fun e => ?_, rfl, rfl, rfl⟩
+  cases e <;> rfl
 
 end CpProofs.C14
